@@ -24,6 +24,10 @@ REQUIRED_THEOREMS = [
     "TapkeeVerif.C09.diffusion_conjugate",
     "TapkeeVerif.C09.dm_coordinates",
     "TapkeeVerif.C09.dm_timesteps_only_exponent",
+    "TapkeeVerif.C09.dm_solution",
+    "TapkeeVerif.C09.belowCount_sound",
+    "TapkeeVerif.C09.belowCount_bounds_eigenvalues",
+    "TapkeeVerif.C09.bottom_certified",
 ]
 EXE = "model_c09"
 
@@ -62,6 +66,8 @@ def make_spec(r, op, method, quick, force=None):
         "lseed": r.below(1 << 60),
         # half of the cases hand the library a NON-identity range (shuffled subset of the samples the callback knows)
         "dseed": r.below(1 << 60) if r.chance(1, 2) else None,
+        # routine level only: an ASYMMETRIC callback (d(i,j) != d(j,i)) exercises the argument order the model transcribes
+        "asym": op in ("lap", "dm") and r.chance(1, 4),
     }
     if kind == "twoclusters":
         spec["cc"] = "1"
@@ -73,9 +79,11 @@ def build_line(spec):
     pts = spec["pts"]
     N = len(pts)
     Dm = _ll.distance_matrix(pts, spec["metric"])
+    if spec.get("asym"):
+        Dm = [[Dm[i][j] if i <= j else _ll.as_double(Dm[i][j] * Fraction(9, 8)) for j in range(N)] for i in range(N)]
     sel = None
     Dall = Dm
-    if spec.get("dseed") is not None:
+    if spec.get("dseed") is not None and not spec.get("asym"):
         dim = len(pts[0])
         allp, sel = _ll.with_decoys(pts, spec["dseed"], lambda rr: [Fraction(rr.range(-1024, 1024), 128) for _ in range(dim)])
         Dall = _ll.distance_matrix(allp, spec["metric"])
@@ -131,7 +139,7 @@ def correspond(ctx):
     ctx.assumptions += [
         "exp: the implementation's mirrored values are cross-checked (2^-36 relative) against the driver's own evaluation (Fix.exp: halving + 48 Taylor terms + squaring at 2^-192); sqrt: integer square root at 2^-192",
         "approx-mode stages are evaluated by the same polymorphic model at K := Fix and compared within 2^-30 relative to the largest summand magnitude",
-        "soundness of the inertia count (Jacobi/Sylvester) is the shared spectral lemma, not re-proved here",
+        "inertia counts behind every spectral verdict: the exact rational LDL^T of Model/Cert.lean (Cert.inertiaPos, sound by Proofs/Inertia.inertiaPos_sound; belowCount_sound / belowCount_bounds_eigenvalues in Props) on sigma*B - A rounded to 64 significant bits after a power-of-two congruence scaling",
     ]
 
 
@@ -145,6 +153,9 @@ def plan_fn(ctx, r, quick):
     # directed: the d = N-1 corner of the generalised solver, d = 5, every neighbour method
     s = make_spec(rr.fork(), "embed", "le", quick, force={"N": 8, "D": 3, "kind": "cloud", "k": 7})
     s["d"] = 7
+    specs.append(s)
+    s = make_spec(rr.fork(), "embed", "dm", quick, force={"N": 7, "D": 3, "kind": "cloud", "k": 6})
+    s["d"] = 6          # Diffusion Map corner d + 1 = N
     specs.append(s)
     for nm in ("brute", "vptree", "covertree"):
         s = make_spec(rr.fork(), "embed", "le", quick, force={"d": 5, "kind": "cloud", "D": 3})
